@@ -7,9 +7,15 @@
 
       func nextBackoffDelay(cur time.Duration, multiplier float64, ceil time.Duration) time.Duration {
           next := time.Duration(float64(cur) * multiplier)
-          if next <= 0 || next > ceil { return ceil }
+          if next <= 0 { return ceil }
+          if next < cur { next = cur }        // added by /repo commit 67dfa20 (see below)
+          if next > ceil { return ceil }
           return next
       }
+
+    Before commit 67dfa20 the function read [if next <= 0 || next > ceil { return ceil }; return next]
+    ([Backoff_next_delay_old]); that version could shrink a delay above 2^53 ns (DESIGN §5 #7, kept
+    as a regression witness).
 
     float64(cur)        int64 -> binary64, round to nearest even       [Backoff_of_int64]
     a * b               binary64 multiply, round to nearest even       [Bmult mode_NE]
@@ -48,18 +54,18 @@ Definition Backoff_to_int64 (f : Backoff_f64) : Z :=
 Definition Backoff_mul (a b : Backoff_f64) : Backoff_f64 :=
   BinarySingleNaN.Bmult mode_NE a b.
 
-(** nextBackoffDelay. *)
+(** nextBackoffDelay (current source: after the overflow test, a product that rounded below [cur]
+    is raised back to [cur] before the ceiling clamp). *)
 Definition Backoff_next_delay (cur : Z) (mult : Backoff_f64) (ceil : Z) : Z :=
-  let next := Backoff_to_int64 (Backoff_mul (Backoff_of_int64 cur) mult) in
-  if (next <=? 0) || (ceil <? next) then ceil else next.
-
-(** The repair proposed in fixes/C11-backoff-monotone.diff: after the overflow test, a product that
-    rounded below [cur] is raised back to [cur] before the ceiling clamp. *)
-Definition Backoff_next_delay_repaired (cur : Z) (mult : Backoff_f64) (ceil : Z) : Z :=
   let next := Backoff_to_int64 (Backoff_mul (Backoff_of_int64 cur) mult) in
   if next <=? 0 then ceil else
   let next' := if next <? cur then cur else next in
   if ceil <? next' then ceil else next'.
+
+(** nextBackoffDelay as it was before /repo commit 67dfa20. *)
+Definition Backoff_next_delay_old (cur : Z) (mult : Backoff_f64) (ceil : Z) : Z :=
+  let next := Backoff_to_int64 (Backoff_mul (Backoff_of_int64 cur) mult) in
+  if (next <=? 0) || (ceil <? next) then ceil else next.
 
 (** The option validation of WithReconnectBackoff: [multiplier < 1.0] is refused (so a NaN
     multiplier passes the validation — the comparison is false). *)
@@ -75,10 +81,10 @@ Fixpoint Backoff_delay (init : Z) (mult : Backoff_f64) (t5 : Z) (k : nat) : Z :=
   | S k' => Backoff_next_delay (Backoff_delay init mult t5 k') mult t5
   end.
 
-Fixpoint Backoff_delay_repaired (init : Z) (mult : Backoff_f64) (t5 : Z) (k : nat) : Z :=
+Fixpoint Backoff_delay_old (init : Z) (mult : Backoff_f64) (t5 : Z) (k : nat) : Z :=
   match k with
   | O => init
-  | S k' => Backoff_next_delay_repaired (Backoff_delay_repaired init mult t5 k') mult t5
+  | S k' => Backoff_next_delay_old (Backoff_delay_old init mult t5 k') mult t5
   end.
 
 Definition Backoff_cap (d t5 : Z) : Z := if t5 <? d then t5 else d.
@@ -86,8 +92,8 @@ Definition Backoff_cap (d t5 : Z) : Z := if t5 <? d then t5 else d.
 Definition Backoff_sleep (init : Z) (mult : Backoff_f64) (t5 : Z) (k : nat) : Z :=
   Backoff_cap (Backoff_delay init mult t5 k) t5.
 
-Definition Backoff_sleep_repaired (init : Z) (mult : Backoff_f64) (t5 : Z) (k : nat) : Z :=
-  Backoff_cap (Backoff_delay_repaired init mult t5 k) t5.
+Definition Backoff_sleep_old (init : Z) (mult : Backoff_f64) (t5 : Z) (k : nat) : Z :=
+  Backoff_cap (Backoff_delay_old init mult t5 k) t5.
 
 (** The first [n] sleeps, for the drivers. *)
 Fixpoint Backoff_sleeps_from (delay : Z) (mult : Backoff_f64) (t5 : Z) (n : nat) : list Z :=
@@ -102,3 +108,5 @@ Definition Backoff_f64_of_bits (bits : Z) : Backoff_f64 := B2BSN 53 1024 (b64_of
 
 Definition Backoff_next_delay_bits (cur bits ceil : Z) : Z :=
   Backoff_next_delay cur (Backoff_f64_of_bits bits) ceil.
+Definition Backoff_next_delay_old_bits (cur bits ceil : Z) : Z :=
+  Backoff_next_delay_old cur (Backoff_f64_of_bits bits) ceil.
